@@ -1,7 +1,7 @@
 #!/usr/bin/env python3
 import json, sys
 pid = sys.argv[1]
-wt = '/tmp/seed_' + pid
+wt = sys.argv[2] if len(sys.argv) > 2 else '/tmp/seed_' + pid
 for l in open('/verif/properties.jsonl'):
     p = json.loads(l)
     if p['id'] == pid:
@@ -30,3 +30,13 @@ Your task: make ONE small, realistic change to the library source under {wt}/src
 Read the anchored source files and the related docs under {wt}/docs/source first so that your change is subtle and your demo is correct about what the original code does.
 
 When done, leave in the worktree: the modified source (uncommitted), demo.py, and a file {wt}/SEED.md describing (a) what you changed and why it looks plausible, (b) exactly what is needed for the violation to manifest, (c) the commands you ran and their results (test-suite result with the change; demo on original; demo on changed). Your final message should summarise the same in a few lines.""")
+
+# diversity note: what earlier seeds for this property already did (nothing about the verification machinery)
+import glob, os
+prev = []
+for f in sorted(glob.glob('/verif/seeded/%s-*/meta.json' % pid)):
+    m = json.load(open(f))
+    prev.append('- %s: %s' % (os.path.basename(os.path.dirname(f))[len(pid) + 1:].replace('-', ' '), m.get('needs', '')))
+if prev:
+    print("\nDiversity note: earlier seeds for this property already exist; choose a DIFFERENT mechanism, a different code site and a different trigger than any of these:\n" + "\n".join(prev))
+    print("Think about parts of the property statement that none of the above touches.")
